@@ -66,14 +66,14 @@ pub enum Item {
     K(KCall),
 }
 
-fn list_toks_u32(l: &[u32], s: &mut String) {
+pub fn list_toks_u32(l: &[u32], s: &mut String) {
     write!(s, " {}", l.len()).unwrap();
     for x in l {
         write!(s, " {x}").unwrap();
     }
 }
 
-fn kcall_toks(k: &KCall, s: &mut String) {
+pub fn kcall_toks(k: &KCall, s: &mut String) {
     match k {
         KCall::InsertVertex(e, a, b, None) => write!(s, " 1 {e} {a} {b} 0").unwrap(),
         KCall::InsertVertex(e, a, b, Some(t)) => write!(s, " 1 {e} {a} {b} 1 {}", ftok(*t)).unwrap(),
@@ -128,7 +128,7 @@ where
 }
 
 /// one kernel call through `&mut Transaction`; `Err(code)` with the harness' error classes
-fn kcall_tx(
+pub fn kcall_tx(
     m: &CMap2<f64>,
     t: &mut honeycomb_core::stm::Transaction,
     k: &KCall,
@@ -169,7 +169,7 @@ fn kcall_tx(
     }
 }
 
-fn call_toks(c: &Call, s: &mut String) {
+pub fn call_toks(c: &Call, s: &mut String) {
     match c {
         Call::Link1(l, r) => write!(s, " 1 {l} {r}"),
         Call::Link2(l, r) => write!(s, " 2 {l} {r}"),
@@ -192,7 +192,7 @@ fn fa_tok(fa: &Option<u64>) -> i64 {
     fa.map_or(-1, |k| k as i64)
 }
 
-fn op_toks(o: &Op, s: &mut String) {
+pub fn op_toks(o: &Op, s: &mut String) {
     match o {
         Op::AddDart => s.push_str(" 1"),
         Op::AddDarts(k) => write!(s, " 2 {k}").unwrap(),
@@ -235,7 +235,7 @@ fn op_toks(o: &Op, s: &mut String) {
 }
 
 /// one call through `&mut Transaction`, errors coerced to SewError
-fn call_tx(
+pub fn call_tx(
     m: &CMap2<f64>,
     t: &mut honeycomb_core::stm::Transaction,
     c: &Call,
@@ -318,7 +318,7 @@ fn call_tx(
 }
 
 /// the `force_*` variant where one exists, a one-call transaction otherwise
-fn call_force(m: &CMap2<f64>, c: &Call) -> Result<(), SewError> {
+pub fn call_force(m: &CMap2<f64>, c: &Call) -> Result<(), SewError> {
     match *c {
         Call::Link1(l, r) => m.force_link::<1>(l, r).map_err(SewError::from),
         Call::Link2(l, r) => m.force_link::<2>(l, r).map_err(SewError::from),
@@ -340,7 +340,7 @@ fn call_force(m: &CMap2<f64>, c: &Call) -> Result<(), SewError> {
     }
 }
 
-fn exec(m: &mut CMap2<f64>, o: &Op) -> Res {
+pub fn exec(m: &mut CMap2<f64>, o: &Op) -> Res {
     let r = catch_unwind(AssertUnwindSafe(|| match o {
         Op::AddDart => Res::Ok(u64::from(m.add_free_dart())),
         Op::AddDarts(k) => Res::Ok(u64::from(m.add_free_darts(*k as usize))),
@@ -648,12 +648,15 @@ fn query2(m: &CMap2<f64>, s: &mut String) {
 
 // ------------------------------------------------------------------ generation
 
-struct View {
+pub struct View {
     n: u32,
     b: Vec<[u32; 3]>,
     unused: Vec<bool>,
 }
-fn view(m: &CMap2<f64>) -> View {
+pub fn view_n(v: &View) -> u32 {
+    v.n
+}
+pub fn view(m: &CMap2<f64>) -> View {
     let n = m.n_darts() as u32;
     View {
         n,
@@ -666,7 +669,7 @@ fn view(m: &CMap2<f64>) -> View {
 
 const COORDS: [f64; 9] = [0.0, 1.0, 2.0, -1.0, 0.5, 3.0, -2.5, 1.5, 4.0];
 
-fn gen_dart(rng: &mut Rng, v: &View, pred: impl Fn(u32) -> bool, wild: bool) -> u32 {
+pub fn gen_dart(rng: &mut Rng, v: &View, pred: impl Fn(u32) -> bool, wild: bool) -> u32 {
     if wild {
         // malformed stream: null dart, removed darts, one past the end
         return rng.below(u64::from(v.n) + 2) as u32;
@@ -680,7 +683,7 @@ fn gen_dart(rng: &mut Rng, v: &View, pred: impl Fn(u32) -> bool, wild: bool) -> 
     }
 }
 
-fn gen_call(rng: &mut Rng, v: &View, mask: u32, wild_pct: u64) -> Call {
+pub fn gen_call(rng: &mut Rng, v: &View, mask: u32, wild_pct: u64) -> Call {
     let wild = rng.chance(wild_pct, 100);
     let loose = rng.chance(15, 100); // valid darts, but not chosen to make the call succeed
     let t = |_: u32| true;
@@ -729,7 +732,7 @@ fn gen_call(rng: &mut Rng, v: &View, mask: u32, wild_pct: u64) -> Call {
 }
 
 /// link/sew/unsew calls chosen so as to mostly succeed (they are the ones with attribute updates)
-fn gen_sewish(rng: &mut Rng, v: &View) -> Call {
+pub fn gen_sewish(rng: &mut Rng, v: &View) -> Call {
     let loose = rng.chance(1, 10);
     match rng.below(6) {
         0 => {
@@ -752,7 +755,7 @@ fn gen_sewish(rng: &mut Rng, v: &View) -> Call {
     }
 }
 
-fn gen_op(rng: &mut Rng, m: &CMap2<f64>, mask: u32, wild_pct: u64, fault_pct: u64) -> Op {
+pub fn gen_op(rng: &mut Rng, m: &CMap2<f64>, mask: u32, wild_pct: u64, fault_pct: u64) -> Op {
     let v = view(m);
     let fa = if mask != 0 && rng.chance(fault_pct, 100) {
         Some(rng.below(4))
@@ -876,7 +879,7 @@ fn parse_kcall(t: &[&str], i: &mut usize) -> KCall {
 
 // ------------------------------------------------------------------ kernel case generation
 
-fn shuffle(r: &mut Rng, v: &mut [u32]) {
+pub fn shuffle(r: &mut Rng, v: &mut [u32]) {
     for i in (1..v.len()).rev() {
         let j = r.below(i as u64 + 1) as usize;
         v.swap(i, j);
@@ -885,7 +888,7 @@ fn shuffle(r: &mut Rng, v: &mut [u32]) {
 
 /// ops building an nx x ny grid of squares, each split in two triangles, embedded with jittered
 /// lattice points; returns (ops, number of darts used)
-fn prefix_trimesh(rng: &mut Rng, nx: u32, ny: u32, anchors: bool) -> (Vec<Op>, u32) {
+pub fn prefix_trimesh(rng: &mut Rng, nx: u32, ny: u32, anchors: bool) -> (Vec<Op>, u32) {
     let mut ops = vec![Op::Obs(false)];
     let d = |ix: u32, iy: u32, k: u32| 1 + 6 * (ix + nx * iy) + k;
     let mut pts = vec![(0.0f64, 0.0f64); ((nx + 1) * (ny + 1)) as usize];
@@ -943,7 +946,7 @@ fn prefix_trimesh(rng: &mut Rng, nx: u32, ny: u32, anchors: bool) -> (Vec<Op>, u
 }
 
 /// a polygon of `k` sides as one face (darts 1..=k), counter-clockwise or clockwise
-fn prefix_polygon(rng: &mut Rng, k: u32, shape: u32, ccw: bool) -> (Vec<Op>, u32) {
+pub fn prefix_polygon(rng: &mut Rng, k: u32, shape: u32, ccw: bool) -> (Vec<Op>, u32) {
     let mut ops = vec![Op::Obs(false)];
     let mut pts: Vec<(f64, f64)> = Vec::new();
     for i in 0..k {
@@ -1051,7 +1054,7 @@ fn prefix_polygon(rng: &mut Rng, k: u32, shape: u32, ccw: bool) -> (Vec<Op>, u32
     (ops, used)
 }
 
-fn gen_kcall(r: &mut Rng, m: &CMap2<f64>, fresh: u32, poly: Option<(u32, u32)>, only: &str) -> KCall {
+pub fn gen_kcall(r: &mut Rng, m: &CMap2<f64>, fresh: u32, poly: Option<(u32, u32)>, only: &str) -> KCall {
     let v = view(m);
     // darts that belong to the mesh (not the isolated spare ones)
     let any = |r: &mut Rng| gen_dart(r, &v, |d| v.b[d as usize] != [0, 0, 0], false);
@@ -1131,7 +1134,7 @@ fn gen_kcall(r: &mut Rng, m: &CMap2<f64>, fresh: u32, poly: Option<(u32, u32)>, 
     }
 }
 
-fn parse_ops(t: &[&str]) -> Vec<Op> {
+pub fn parse_ops(t: &[&str]) -> Vec<Op> {
     let mut i = 0;
     let mut v = Vec::new();
     while i < t.len() {
